@@ -108,11 +108,28 @@ def mnemonic(dse, addr):
 
 
 def eval_under(expr, env):
-    """concrete value of a symbolic expression under the input valuation (miasm's own evaluation of constants)"""
-    from miasm.expression.simplifications import expr_simp
-    from miasm.expression.expression import ExprInt
-    r = expr_simp(expr.replace_expr(env))
-    return int(r) if r.is_int() else None
+    """concrete value of a symbolic expression under the input valuation, by the framework's reference evaluator
+    (vlib.refeval, independent of miasm's simplifier); None when it still reads memory or an unknown identifier"""
+    from vlib import refeval
+    from miasm.expression.expression import ExprId, ExprMem, ExprLoc
+    ids = {}
+    for e, v in env.items():
+        ids[(e.name, e.size)] = int(v)
+    bad = []
+
+    def visit(e):
+        if isinstance(e, (ExprMem, ExprLoc)):
+            bad.append(e)
+        elif isinstance(e, ExprId) and (e.name, e.size) not in ids:
+            bad.append(e)
+        return e
+    expr.visit(visit)
+    if bad:
+        return None
+    try:
+        return refeval.S(expr, refeval.Env(ids=ids))
+    except (refeval.Undefined, refeval.Uninterpreted):
+        return None
 
 
 def run_case(code, inp, strategy, symmode, rounds=2, max_inputs=6, stats=None):
@@ -357,7 +374,7 @@ class C41(Check):
 
     def run_shard(self, tier, seed, shard, nshards):
         res = ShardResult()
-        nrand = 20 if tier == "thorough" else 4
+        nrand = 12 if tier == "thorough" else 3
         scratch = tempfile.mkdtemp(prefix="c41-", dir="/var/tmp")
         try:
             # the hand-written programs are spread over the shards (all of them are run in every tier)
@@ -378,20 +395,20 @@ class C41(Check):
                     ninp = 2 if tier == "thorough" else 1
                     for k in range(ninp):
                         inp = gen_input(rnd)
-                        strategy = ("code", "branch", "path")[(pi + oi + k + shard) % 3]
+                        strategy = ("code", "branch", "path")[rnd.randrange(3)]
                         symmode = ("both", "buf", "args", "both")[(pi + k + rnd.randrange(4)) % 4]
                         if pi < nfixed:
                             symmode = "both"
-                        self._one(res, p, opt, inp, strategy, symmode)
+                        self._one(res, p, opt, inp, strategy, symmode, 6 if tier == "thorough" else 3)
         finally:
             shutil.rmtree(scratch, ignore_errors=True)
         return res
 
-    def _one(self, res, p, opt, inp, strategy, symmode):
+    def _one(self, res, p, opt, inp, strategy, symmode, max_inputs):
         case = {"tag": p["tag"], "src": p["src"], "opt": opt, "code": p["code"].hex(), "input": inp,
                 "strategy": strategy, "sym": symmode}
         try:
-            fails, info = run_case(p["code"], inp, strategy, symmode, stats=res.counters)
+            fails, info = run_case(p["code"], inp, strategy, symmode, max_inputs=max_inputs, stats=res.counters)
         except StepLimit:
             res.dropped["step-limit"] += 1
             return
